@@ -482,7 +482,8 @@ class C23(SelLawsEngine):
     assumptions = ["pseudo-elements are not simple selectors (Selectors Level 4): they are never what Derive adds, and nothing is added behind one",
                    "compounds are written in the order the pinned tree stores them (element, id, classes, attributes, pseudos), so that the "
                    "open finding compound_reordered of C19 does not interfere",
-                   "ancestors/parents are added in front of a complex selector (not between its compounds)"]
+                   "ancestors/parents are added in front of a complex selector (not between its compounds)",
+                   "a compound carries at most one type selector and one id (of `#i#j` the pinned tree keeps `#j`: finding second_id_replaces_first of C25)"]
 
     def random_queries(self, ctx, n):
         rng = ctx.rng
@@ -701,10 +702,8 @@ class C25(VectorEngine):
     level = "exploration"
     trace = ("Trace_SelRT", "Trace_SelRT.cfg")
     spec_op = "SelRT!RoundTripOK"
-    mc_runs = {"quick": [("MC_SelRT", "MC_SelRT_names_q.cfg", {"workers": 4}), ("MC_SelRT", "MC_SelRT_ctx_q.cfg", {"workers": 4}),
-                         ("MC_SelRT", "MC_SelRT_struct_q.cfg", {"workers": 4})],
-               "thorough": [("MC_SelRT", "MC_SelRT_names_t.cfg", {"workers": 4}), ("MC_SelRT", "MC_SelRT_ctx_q.cfg", {"workers": 4}),
-                            ("MC_SelRT", "MC_SelRT_struct_q.cfg", {"workers": 4})]}
+    mc_runs = {"quick": [("MC_SelRT", "MC_SelRT_all_q.cfg", {"workers": 4})],
+               "thorough": [("MC_SelRT", "MC_SelRT_all_t.cfg", {"workers": 4})]}
     random_n = {"quick": 1000, "thorough": 20000}
     max_rejects = 8
     rule = ("Selector sources rendered by MC_SelRT.tla from token sequences: every class/id/type name of 1-2 characters from 12 code-point "
@@ -794,7 +793,7 @@ class C25(VectorEngine):
                                             actual={f: e[f] for f in ("p1", "p2", "em")}, source=src,
                                             expected="(rejected by %s: SelRT!RoundTripOK)" % self.trace[0], flow="B"))
         # validate in chunks: the events are independent of each other
-        chunk = 4000
+        chunk = 20000
         for c in range(0, len(events), chunk):
             ctx.validate(self.trace[0], self.trace[1], events[c:c + chunk], on_reject=on_reject, max_rejects=self.max_rejects, tag="t%d" % c)
 
@@ -818,6 +817,7 @@ class C25(VectorEngine):
         import os
         rng = ctx.rng
         kinds = ("raw", "raw", "bs", "hex", "hex6")
+        # (a lone `-` written `\\-` is an identifier too)
         T = lambda t, v: {"t": t, "v": v}
         rows = []
         for _ in range(n):
